@@ -251,7 +251,8 @@ class Run:
         ev = {'property_id': self.prop, 'tier': self.tier, 'seed': int(self.seed), 'level': level, 'coverage': cov,
               'assumptions': self.assumptions, 'wall_s': round(time.time() - self.t0, 2), 'violations': len(unlisted) + (1 if (self.broken and not unlisted) else 0)}
         os.makedirs(EVID, exist_ok=True)
-        json.dump(ev, open(os.path.join(EVID, self.prop + '.json'), 'w'), indent=1)
+        if nob > 0:     # a --replay run records no obligations: it must not overwrite the evidence of the last real run
+            json.dump(ev, open(os.path.join(EVID, self.prop + '.json'), 'w'), indent=1)
         for l in lines: print(l)
         if rc == 0: print(f'OK property={self.prop} tier={self.tier} obligations={ndis}/{nob} wall={ev["wall_s"]}s')
         else:
